@@ -44,6 +44,7 @@ type HarnessCfg struct {
 	Note        string            `json:"note"`
 	PanicIgnore []string          `json:"panic_ignore"`
 	LockRules   []LockRule        `json:"lock_rules"`
+	AllocBoundViolation bool      `json:"alloc_bound_violation"` // an allocation whose size can exceed bound maxmake is a violation (memory exhaustion), not a mere bound event
 	AssertFilter string           `json:"assert_filter"` // regexp: only assertion ids matching it are obligations of this harness
 	HarnessDir  string            `json:"harness_dir"`
 }
@@ -658,6 +659,10 @@ func (r *runner) discharge(h *HarnessCfg, res *HarnessResult, ex *Exec, solver *
 		r.mu.Unlock()
 	}
 	for _, e := range ex.unwinds {
+		if h.AllocBoundViolation && e.Kind == "bound" && strings.Contains(e.Msg, "make size") {
+			check("alloc", "alloc:allocation-size-not-bounded-by-limit@"+shortPos(e.Pos), e.Pos, e.Case, e.PC)
+			continue
+		}
 		v := solver.CheckSat(10000, e.PC)
 		r.mu.Lock()
 		res.Unwinds++
